@@ -1740,3 +1740,12 @@ TABLE["C09"] += [
     B("keyword-parameters-renamed-in-the-signature-only", {"W12"}, (PW, "        names = args.names()\n        types_names = [", "        names = [n + '_' if n in self.python_keywords else n for n in args.names()]\n        types_names = [")),
     B("call-passes-the-arguments-reversed", {"W12", "W4"}, (PW, "                                 args_names=', '.join(args_names),\n                             ))\n\n            ret = ('{prefix}.{cdef}(\"{function_name}\",", "                                 args_names=', '.join(reversed(args_names)),\n                             ))\n\n            ret = ('{prefix}.{cdef}(\"{function_name}\",")),
 ]
+TIC = "gtwrap/template_instantiator/classes.py"
+TABLE["C13"] += [
+    B("dunder-arguments-written-into-the-parsed-list", {"P1"},
+      (TIC, "                parser.DunderMethod(\n                    name=dunder_method.name,\n                    args=parser.ArgumentList(instantiated_args),\n                ))",
+       "                parser.DunderMethod(\n                    name=dunder_method.name,\n                    args=parser.ArgumentList(instantiated_args),\n                ))\n            dunder_method.args.list()[:] = instantiated_args")),
+    B("serialization-helpers-only-for-the-first-class", {"P10"},
+      (PW, "        if not cpp_class in self._serializing_classes:\n            self._serializing_classes.append(cpp_class)\n",
+       "        if self._serializing_classes:\n            return ''\n        self._serializing_classes.append(cpp_class)\n")),
+]
